@@ -92,14 +92,23 @@ def show(c):
 
 
 def classify(c, obs):
-    """Stable key of a disagreement: the overflow class if it is one, else the call itself."""
+    """(class of the disagreement, is it the int64 wrap-around class)"""
     exp = c["expect"]
     vals = [e[1] for e in obs if e[0] == "i"]
     step = c["call"][2]
+    sign = "positive" if step > 0 else "negative"
     if exp and vals[:len(exp)] == exp and len(vals) > len(exp) and vals[len(exp)] == cr.wrap64(exp[-1] + step) \
             and not (cr.MIN <= exp[-1] + step <= cr.MAX):
-        return f"Range.__next__: next + step wraps past int64 ({'positive' if step > 0 else 'negative'} step)"
-    return show(c)
+        return f"Range.__next__: next + step wraps past int64 ({sign} step)", True
+    if any(e[0] == "panic" for e in obs):
+        kind = "panics"
+    elif vals[:len(exp)] == exp and len(vals) > len(exp):
+        kind = "yields extra values"
+    elif vals == exp[:len(vals)]:
+        kind = "stops early"
+    else:
+        kind = "yields different values"
+    return f"{c['form']} with {sign} step {kind}", False
 
 
 def static_cases(records):
@@ -177,14 +186,17 @@ def run(ctx):
     groups = collections.defaultdict(list)
     for i in bad:
         groups[classify(cases[i], observed[i])].append(i)
-    for key, idxs in sorted(groups.items()):
+    for (cls, is_wrap), idxs in sorted(groups.items()):
         idxs.sort(key=lambda i: (len(cases[i]["expect"]), [abs(x) for x in cases[i]["call"]]))
         ex = [{"form": cases[i]["form"], "call": cases[i]["call"], "expect": cases[i]["expect"][-3:],
                "observed": observed[i][-6:]} for i in idxs[:10]]
-        c0 = cases[idxs[0]]
-        ctx.violation(key, f"{show(c0)} must yield {c0['expect']} (Python) but the compiled program reports "
-                      f"{observed[idxs[0]]}; {len(idxs)} of {len(cases)} calls in this class, e.g. "
-                      f"{[show(cases[i]) for i in idxs[:5]]}", {"cases": ex})
+        # the wrap-around class is one finding; any other class is reported by its smallest calls
+        for i in (idxs[:1] if is_wrap else idxs[:3]):
+            c0 = cases[i]
+            ctx.violation(cls if is_wrap else f"{show(c0)}: {cls.split(' step ')[-1]}",
+                          f"{show(c0)} must yield {c0['expect']} (Python) but the compiled program reports "
+                          f"{observed[i]}; {len(idxs)} of {len(cases)} calls in class `{cls}`, e.g. "
+                          f"{[show(cases[j]) for j in idxs[:5]]}", {"cases": ex if is_wrap else [{"form": c0["form"], "call": c0["call"]}]})
     # what the model of the code with wrapping addition predicts (information for triage only)
     if width == 4:
         pred = {tuple(p["diverges"]) for p in tlc_records(ctx, "Range_Wrap4.cfg") if "diverges" in p}
